@@ -64,6 +64,9 @@ structure ClassDef where
   sierra : Bool
   /-- `Compiled.Hash(HashVersionV2)` of a Sierra class (0 for Cairo 0) -/
   v2 : Nat
+  /-- a Sierra class comes with a compiled class whose V2 hash can be computed (`Compiled != nil` and a bytecode
+  as long as its segment lengths add up to: `compiledClassHashV2`, 302c657); `true` for Cairo 0 -/
+  compiled : Bool
 deriving DecidableEq, Repr
 
 structure ClassRec where
@@ -473,6 +476,12 @@ def revertState (cfg : Cfg) (n ver : Nat) (su : SU) (casm : Map Nat CasmMeta) (s
 def declaredDefsOK (b : Block) : Bool :=
   b.diff.declV1.all (fun e => match Map.get b.classes e.1 with | some cd => cd.sierra | none => false)
 
+/-- below 0.14.1 the V2 hash is computed from the compiled class of every declared class (`compiledClassHashV2`):
+a class delivered without one, or with a malformed one, makes `Store` refuse the block (302c657: before it the
+hash function panicked inside the batch) -/
+def declaredDefsOKV1 (b : Block) : Bool :=
+  b.diff.declV1.all (fun e => match Map.get b.classes e.1 with | some cd => cd.sierra && cd.compiled | none => false)
+
 def storeCasm (n : Nat) (b : Block) (casm : Map Nat CasmMeta) : Except Err (Map Nat CasmMeta) := do
   if b.ver ≥ 2 then
     -- V2 declarations: the definition must be supplied and be a Sierra class (fecbdb1: before it a
@@ -484,8 +493,8 @@ def storeCasm (n : Nat) (b : Block) (casm : Map Nat CasmMeta) : Except Err (Map 
         (fun md _ => { md with migratedAt := n }) Err.casm c1 b.diff.migrated
     else throw Err.casm
   else
-    -- V1 declarations: the definition must be supplied and be a Sierra class
-    if declaredDefsOK b then
+    -- V1 declarations: the definition must be supplied, be a Sierra class and have a usable compiled class
+    if declaredDefsOKV1 b then
       pure (Map.setAll casm (b.diff.declV1.map (fun e =>
         (e.1, (⟨n, ((Map.get b.classes e.1).map (·.v2)).getD 0, 0, some e.2⟩ : CasmMeta)))))
     else throw Err.casm
